@@ -18,7 +18,7 @@ RULE = ("recursive JSON-like values (dict with str keys - Python mode also int k
         "limit with element sizes 1..170, one over-long element, dicts mixing simple and compound values. "
         "Non-trivial = the value contains a simple container whose one-line length + offset lies in 190..210, or a "
         "simple list rendered over several lines; distinct by (mode, value) hash."
-        " Also: the result object observed (repr, len, ==, +, slice, format ...) before its text is taken; both results requested before either is rendered.")
+        " Also: the result object observed (repr, len, ==, +, slice, format ...) before its text is taken; both results requested before either is rendered. Part text_twins: flat lists (at offsets 0-6, sometimes long enough to wrap) in which strings spell exactly what other items of the same list print as (101 next to '101', None next to 'None' / 'null', [] next to '[]'), in any order.")
 ASSUMPTIONS = [
     "NaN / +-inf are excluded (no JSON form; NaN != NaN)",
     "strings contain no '\"', backslash, control (Cc), surrogate, or line/paragraph separator characters",
@@ -377,10 +377,39 @@ def st_repeated(mode):
     return st.builds(build, small, st_scalar() | small, st.integers(0, 2))
 
 
-def st_case():
+@st.composite
+def st_text_twins(draw, mode):
+    """a flat list of simple items in which strings spell exactly what other items of the same list print as
+    (101 next to "101", None next to "None" / "null", [] next to "[]"), in any order, at any offset"""
+    import json as _json
+    wrappers = draw(st.lists(st.sampled_from("ld"), max_size=3))
+    base = draw(st.lists(st.one_of(st.none(), st.booleans(), st.integers(-1000, 1000), st.integers(),
+                                   st.floats(-100, 100, allow_nan=False), st.just(["l", []]), st.just(["d", []]),
+                                   st.text("ab1", max_size=3)), min_size=1, max_size=7))
+    items = []
+    for b in base:
+        if isinstance(b, list):
+            texts = ["[]" if b[0] == "l" else "{}"]
+        elif isinstance(b, str):
+            texts = [repr(b), b + " "]          # (strings of the domain hold no double quote: json.dumps(b) is left out)
+        else:
+            texts = [str(b), _json.dumps(b), repr(b)]
+        tw = draw(st.sampled_from(texts))
+        k = draw(st.integers(0, 4))
+        items += [b] if k == 0 else [b, tw] if k in (1, 2) else [tw, b]
+    if draw(st.booleans()):
+        items = list(draw(st.permutations(items)))
+    if draw(st.integers(0, 3)) == 0:
+        # long enough to be wrapped
+        items = items * draw(st.integers(8, 30))
+    return wrap(["l", items], wrappers)
+
+
+def st_case(values=None):
     def for_mode(mode):
-        return st.one_of(st_value(mode), st_value(mode), st_threshold(mode), st_threshold(mode),
-                         st_wraplist(mode), st_repeated(mode)).flatmap(
+        return (values(mode) if values is not None else
+                st.one_of(st_value(mode), st_value(mode), st_threshold(mode), st_threshold(mode),
+                          st_wraplist(mode), st_repeated(mode))).flatmap(
             lambda v: st.booleans().map(lambda sh: {"mode": mode, "value": v, "share": sh}).flatmap(
                 lambda c: st.sampled_from([None, None, 0, 1, 2, 3]).map(lambda a: dict(c, abandon=a))).flatmap(
                 lambda c: (st.just([]) | st.just([]) | st.lists(st.sampled_from(
@@ -393,7 +422,9 @@ def st_case():
 
 def parts(tier):
     k = 1 if tier == "quick" else 50
-    return [Part("values", evaluate, strategy=st_case, examples=10000 * k)]
+    return [Part("values", evaluate, strategy=st_case, examples=10000 * k),
+            Part("text_twins", evaluate, strategy=lambda: st_case(st_text_twins), examples=1500 * k,
+                 note="flat lists where strings spell what other items of the list print as")]
 
 
 TECHNIQUE = "round-trip property-based testing (Hypothesis): json.loads / ast.literal_eval of the no-colour output against the generated value, threshold-directed generators for the 200-column and 150-column wrap rules"
